@@ -56,6 +56,11 @@ def bases(engine, rng, n):
     out.append(dpgen.scenario(engine + "-g-batching", engine, [S("s1", 3, [1, 1, 1])], [D("d1", gated=False, batch=2)],
                steps=[{"do": "Emit", "src": "s1"}, {"do": "Settle"}, {"do": "Emit", "src": "s1"}, {"do": "Settle"},
                       {"do": "Emit", "src": "s1"}, {"do": "Settle"}]))
+    # ... and one whose answer for a full batch reaches the engine before the write call that completed it has returned
+    # (a plugin's ack stream is independent of its write stream): the run ends exactly with that batch
+    out.append(dpgen.scenario(engine + "-g-earlyack", engine, [S("s1", 2, [1, 1])],
+               [D("d1", gated=False, batch=2, early_ack=True, batch_delay_ms=15)],
+               steps=[{"do": "Emit", "src": "s1"}, {"do": "Settle"}, {"do": "Emit", "src": "s1"}, {"do": "Settle"}]))
     out.append(dpgen.scenario(engine + "-g-batching2", engine, [S("s1", 4, [2, 2])],
                [D("d1", gated=False, batch=3), D("d2", gated=False)],
                steps=[{"do": "Emit", "src": "s1"}, {"do": "Settle"}, {"do": "Emit", "src": "s1"}, {"do": "Settle"}]))
